@@ -19,8 +19,8 @@ from ..core import Ctx, load_corpus
 from . import sim_c07
 
 ID = "C07"
-LEVEL = "proof"            # the evidence schema's `level` is the technique category (enum without "partial")
-LEVEL_CLAIMED = "partial"  # DESIGN §8: a clause is proved only under a guard / rests on tie+oracle (see LEVEL_TEXT)
+LEVEL = "proof"
+STRENGTH = "partial"   # the barrier clause is proved under a named guard (C07-F1), "not delayed" rests on tie + oracle: see LEVEL_TEXT
 ENGINES = ["lean-model", "kopfsim"]
 TIE = ("S: step refinement — every worker iteration (and idle retirement) of closed-loop simulations replayed through the "
        "Lean worker/processor step; the model's (expected, deadline) must be the consistency_time the next real iteration gets")
@@ -685,7 +685,7 @@ def run(ctx: Ctx) -> None:
         part = scenarios[k:k + chunk]
         evaluate(ctx, part, sim_c07.run_many(part, wall=40.0, tie=True))
     ctx.count("scenarios", "run", len(scenarios))
-    ctx.extra["level_claimed"] = LEVEL_CLAIMED
+    ctx.extra["strength"] = STRENGTH
 
 
 def search(ctx: Ctx, broken: list) -> None:
